@@ -182,7 +182,10 @@ func chainHistories(r *vf.Run, pool []*keys.Identity, verifiers []*p2ptls.Identi
 			order = append(order, fmt.Sprintf("%s%d", tag, st.fam))
 			steps = append(steps, fmt.Sprintf("family %d (identity %d): %s [%s]", st.fam, st.b.Spec.K, st.b.Spec.Variant, st.pos))
 			hc := &histCtx{pos: st.pos, steps: steps}
-			for _, ek := range []string{"any", "K", "other"} {
+			// no constraint, the right peer, another peer, and two of the other well-formed id shapes
+			eks := append([]string(nil), expKinds[:3]...)
+			eks = append(eks, expKinds[3+rng.IntN(len(expKinds)-3)], expKinds[3+rng.IntN(len(expKinds)-3)])
+			for _, ek := range eks {
 				evalChain(r, st.b, pool, ver, ek, hc)
 			}
 			r.Count("history_steps_"+st.pos, 1)
